@@ -74,6 +74,7 @@ def iter_loop(eng, s, it, st, fr, k, enum_start=None):
     def body_end(s2):
         eng.oblige_clauses("invariant-preserve", pre, s2, inv(s2, kk + 1), s)
         L._body_ensures(eng, spec, s2, fr, {"k_": kk, "n_": total}, pre, s)
+        L._ghost_frame(eng, sh_it, s2, ordinal, pre, s)
         eng.canary(f"{pre}:body-end", s2, s)
     fr_body = fr.with_(brk=lambda s2: k(s2), cont=body_end)
     elem = Opq(z3.Select(seq, pos0 + kk))
